@@ -39,6 +39,7 @@ func main() {
 		faults(r)
 		construction(r)
 		rawBodies(r)
+		exoticIdentities(r)
 		r.Floor(int64(r.Pick(1000, 10000)), int64(r.Pick(300, 5000)))
 	})
 }
@@ -327,7 +328,7 @@ func construction(r *ev.Run) {
 				kind := kind
 				rec := map[string]any{"no_upstream": noUp, "fault": wire.KindName[kind], "preloaded": preload == 1}
 				r.Eval(1)
-				r.Guard(c, "shimagent.New", rec, func() {
+				if _, hung := r.GuardWithin(c, "shimagent.New", rec, ev.CaseBudget(), func() {
 					ag := wire.New()
 					defer ag.Close()
 					if preload == 1 {
@@ -368,7 +369,9 @@ func construction(r *ev.Run) {
 						}
 					}
 					r.Nontrivial(fmt.Sprintf("construct:%v:%s:%d", noUp, wire.KindName[kind], preload))
-				})
+				}); hung {
+					r.Violation(c, "operation-does-not-return:after-faulted-construction:"+wire.KindName[kind], "an operation on a shim built over a faulty underlying agent never returned; goroutines inside the repository:\n"+ev.RepoStacks(2000), rec)
+				}
 			}
 		}
 		// a socket that does not exist, and one that accepts and closes at once
